@@ -130,6 +130,24 @@ CLAIMED = {
             'satisfy the four side conditions and admit an interpretation in every finite model.',
             'Trusted: reference side conditions and mc/holsem.py. Generated families are small grammars, not all of HOL.',
             'DESIGN.md §3 C11'),
+    'C13': ('model_checking',
+            'explicit-state BFS over editing histories of the real ProofState (live replay + copy application), invariant checking in every state',
+            'From 14 generated goals, every suggestion of search_method for every gap and every selection of <=2 visible facts plus '
+            'cut/cases/introduction/new_var with parameters from a state-derived menu; plus every prefix of the recorded steps of the '
+            'library proofs of the tier. In every reached state: full re-check with gaps == placeholders, last line == stated goal, '
+            'ids == positions, citations earlier and visible, finished proofs pass no_gaps=True, export/re-import gives the same lines '
+            'and result, copies are isolated, histories replay identically on a fresh state.',
+            'States merged by (variables, exported proof). z3 switched off. revert_intro and cut/cases with a formula that already is '
+            'the statement of a line are not in the menu (see DESIGN.md §5: they expose preconditions the editor does not check). '
+            'Depth 4 / 250 states per goal (thorough 6 / 3000).',
+            'DESIGN.md §3 C13'),
+    'C14': ('model_checking',
+            'the C13 state graph; every (state, goal line, fact selection, suggestion) is executed on a copy and compared with what it advertised',
+            'For every reached state and every library-proof prefix: every entry returned by search_method without open declared '
+            'parameters must apply or ask for named parameters; afterwards the new open goals are among the advertised ones, a '
+            '"solves" entry leaves none, advertised facts are proved lines, and the full re-check succeeds.',
+            'Suggestions with open declared parameters are only counted. Known open finding F-C14-1 (eta-contracted goals and someI).',
+            'DESIGN.md §3 C14'),
 }
 
 PENDING_REASON = 'check not built yet in this round (planned, see DESIGN.md §3/§7); not claimed until its machinery exists'
